@@ -21,7 +21,7 @@ for p in props:
         'evidence_file': '/verif/evidence/%s.json' % pid,
         'replay_cmd_template': './vcheck %s --replay {path}' % pid,
         'engine': getattr(m, 'ENGINE', 'pysymex'),
-        'level_claimed': {'category': m.LEVEL, 'text': m.EXPLANATION, 'design_ref': 'DESIGN.md section 3/%s' % pid},
+        'level_claimed': {'category': m.LEVEL, 'text': m.EXPLANATION, 'design_ref': 'DESIGN.md section 2 (%s) and checks/%s.py' % (pid, pid.lower())},
         'level_note': '; '.join(getattr(m, 'ASSUMPTIONS', [])) + ' | outside the claim: ' + '; '.join(getattr(m, 'OUTSIDE', [])),
         'technique': getattr(m, 'TECHNIQUE', 'bounded symbolic execution of the real Python source with z3 deciding every branch and the final assertion (counterexamples replayed on the real library)'),
     })
